@@ -835,6 +835,61 @@ fn check_gate_prefix(pats: &[RefPattern], inp: &RefInput, toks: &[Tok], start: u
     }
 }
 
+/// A lookahead is a separate object, not part of the pattern text. Before the configuration with
+/// pattern P and Lookahead(+/-, L) is built, configurations are built through the cache in which that
+/// pattern is the PLAIN text one could print it as (P?=L, P?!L, P/L, PL, "P L") - where that text is
+/// a valid pattern by itself. Then the real configuration is built through the cache and judged by
+/// the gate rule: whatever was built before, the lookahead must gate.
+pub fn c04_text_twin_case(rng: &mut Rng, st: &mut Stats) -> CaseOutcome {
+    let mut p = GenParams::varied(rng);
+    p.max_nodes = 6;
+    let cfg = gen_la_mode(rng, &p, 1);
+    if !guard_roundtrip(&cfg) {
+        return CaseOutcome::Skipped;
+    }
+    let Some(k) = (0..cfg.modes[0].pats.len()).find(|k| cfg.modes[0].pats[*k].la.is_some()) else { return CaseOutcome::Skipped };
+    let res_refs = cfg.all_res();
+    let input = gen_input(rng, &res_refs, &p.letters, 30);
+    let pat = &cfg.modes[0].pats[k];
+    let (pos, la) = pat.la.clone().unwrap();
+    let ptxt = pat.re.to_syntax();
+    let ltxt = la.to_syntax();
+    let renderings = [
+        format!("{}{}{}", ptxt, if pos { "?=" } else { "?!" }, ltxt),
+        format!("{}/{}", ptxt, ltxt),
+        format!("{}{}", ptxt, ltxt),
+        format!("{} {}", ptxt, ltxt),
+        format!("{}{}{}", ptxt, if pos { "=" } else { "!" }, ltxt),
+    ];
+    let mut twins_built = 0;
+    for r in &renderings {
+        let modes: Vec<scnr::ScannerMode> = vec![scnr::ScannerMode::new(
+            &cfg.modes[0].name,
+            cfg.modes[0].pats.iter().enumerate().map(|(j, q)| if j == k { scnr::Pattern::new(r.clone(), q.tt) } else { pattern_of(q) }).collect::<Vec<_>>(),
+            cfg.modes[0].trans.clone(),
+        )];
+        match sut(|| scnr::ScannerBuilder::new().add_scanner_modes(&modes).build().map(|_| ())) {
+            Err(pm) => {
+                return CaseOutcome::Violated(Violation::new(format!("build panicked for the pattern text {:?}: {}", r, pm), case_json("tok_gate_twin", &cfg, &input, 0, BuildPath::Cached)))
+            }
+            Ok(Ok(())) => twins_built += 1,
+            Ok(Err(_)) => {}
+        }
+    }
+    st.add("plain_text_twins_built_before_the_lookahead_configuration", twins_built);
+    st.count("lookahead_configurations_built_after_their_plain_text_twins");
+    match run_tok_case("tok_gate", TokOracle::Gate, &cfg, &input, 0, BuildPath::Cached, st) {
+        Ok(()) => {
+            st.nontrivial(nontrivial_hash(&cfg, &input, 0));
+            CaseOutcome::Ok
+        }
+        Err(mut v) => {
+            v.what = format!("after configurations with the plain pattern texts {:?} were built: {}", renderings, v.what);
+            CaseOutcome::Violated(v)
+        }
+    }
+}
+
 pub fn c04(tier: Tier) -> i32 {
     let ctx = Ctx::new("C04", tier, "exploration");
     let n = ctx.scale(40_000, 3_000_000);
@@ -844,6 +899,9 @@ pub fn c04(tier: Tier) -> i32 {
     let n2 = ctx.scale(15_000, 1_000_000);
     res.merge(run_cases(&ctx, 2, n2, |rng, _i, st| c04_reset_case(rng, st)));
     res.merge(corpus_lookahead_cases(&ctx, TokOracle::Gate));
+    // Stream 5: the lookahead configuration built after its plain-text look-alikes.
+    let ntwin = ctx.scale(4_000, 300_000);
+    res.merge(run_cases(&ctx, 5, ntwin, |rng, _i, st| c04_text_twin_case(rng, st)));
     // Stream 3: lookahead texts of 250 - 140 000 characters (gate oracle on the derivative reference).
     #[cfg(feature = "hooks")]
     {
@@ -851,9 +909,10 @@ pub fn c04(tier: Tier) -> i32 {
         res.merge(run_cases(&ctx, 3, nlong, |rng, _i, st| crate::checks_scale::long_lookahead_case(rng, st, true)));
     }
     let report = Report::new(
-        "stream 3: lookahead texts of 250 - 140 000 characters (runs after k / m / n tokens, multi-byte included), judged by the derivative-based reference with the gate rule only; stream 1: random single-mode configurations mixing patterns with positive, negative and no lookahead (lookahead patterns never nullable), inputs of 0-40 chars from the pattern languages plus noise, scan start offsets on every kind of character boundary via with_offset on a fresh iterator and (stream 2) via set_offset on a used iterator that has already peeked and consumed tokens; plus the directed family (candidate A shorter than B with A's lookahead longer/equal/shorter, failing lookaheads) and the repository's lookahead fixtures. Oracle: step-wise soundness of every reported token (pattern matches its text and its lookahead condition holds at its end) and completeness at every skipped position. Non-trivial: at least one lookahead evaluation took place; distinct by hash of (configuration, input, offset).",
+        "stream 5: before a configuration with pattern P and a separate lookahead L is built through the cache, configurations are built in which that pattern is the plain text P?=L / P?!L / P/L / PL / 'P L' (where valid); then the real configuration is built through the cache and judged by the gate rule; stream 3: lookahead texts of 250 - 140 000 characters (runs after k / m / n tokens, multi-byte included), judged by the derivative-based reference with the gate rule only; stream 1: random single-mode configurations mixing patterns with positive, negative and no lookahead (lookahead patterns never nullable), inputs of 0-40 chars from the pattern languages plus noise, scan start offsets on every kind of character boundary via with_offset on a fresh iterator and (stream 2) via set_offset on a used iterator that has already peeked and consumed tokens; plus the directed family (candidate A shorter than B with A's lookahead longer/equal/shorter, failing lookaheads) and the repository's lookahead fixtures. Oracle: step-wise soundness of every reported token (pattern matches its text and its lookahead condition holds at its end) and completeness at every skipped position. Non-trivial: at least one lookahead evaluation took place; distinct by hash of (configuration, input, offset).",
     )
     .floor("la_pos_satisfied", 2000)
+    .floor("plain_text_twins_built_before_the_lookahead_configuration", 3_000)
     .floor("scans_with_a_lookahead_text_longer_than_65535_chars", if cfg!(feature = "hooks") { 20 } else { 0 })
     .floor("la_pos_failed", 2000)
     .floor("la_neg_satisfied", 2000)
